@@ -14,6 +14,7 @@ RULE = ('same client/server topology as C17; generated histories of up to 6 oper
         'from the server\'s; boundary seeds 0x0001/0xFFFE/0x8000 and arbitrary ones), refusal at the proceed callback, refusal at respond(False, error, edcp 6/7) with '
         'every defined J1939Error code and undefined codes, an error without indicator (edcp 0xFF, recorded only) and an absent server (unplugged for the duration of '
         'the operation), for reads and writes. non-trivial = at least one failure kind fired and was followed by a well-formed operation; distinct = distinct scenario JSON')
+FAULT_COUNTERS = {'wrong key': 'wrong_key', 'refusal at the proceed callback': 'refuse_proceed', 'refusal at respond()': 'refuse_respond', 'absent server (silence for the duration of the call)': 'absent'}
 REQUIRED_PROBES = ['ops', 'wrong_key', 'refuse_proceed', 'refuse_respond', 'absent', 'recoveries_judged', 'defined_error_codes', 'undefined_error_codes']
 ASSUMPTIONS = ['an error DM15 whose EDCP extension says "no error indicator" (0xFF) is recorded, not judged (the statement speaks of responses carrying an indicator)',
                'the serving application always answers a notification (an application that never calls respond() is not a library failure)']
